@@ -81,6 +81,21 @@ def gen(rng, tier):
                 found += 1
                 if found == 2:
                     break
+    # directed history: the SAME 33 key bytes, chain code and index loaded as a public-only parent by one ECDSA curve class and then by the
+    # other (bytes that are a valid key on both curves: about every second key), and by the first one again.  Each class must give ITS curve's
+    # child (the model computes each one separately); anything remembered per (key bytes, chain code, index) across classes shows here
+    from harness.props.bip32_common import both_curves_parent
+    for i in range(4 if tier == "quick" else 100):
+        first = ("secp256k1", "nist256p1")[i % 2]
+        second = ("secp256k1", "nist256p1")[1 - i % 2]
+        r = both_curves_parent(rng, (first, second)[(i // 2) % 2])
+        if r is None:
+            continue
+        cc = bytes(rng.randrange(256) for _ in range(32))
+        dp = rng.choice([0, 1, 3])
+        for idx in (rand_index(rng, False), rng.randrange(0, 20)):
+            for c in (first, second, first):
+                yield Case("childpub", [c, hx(r[1]), hx(cc), dp, idx], "pub-same-bytes-both-curves")
     for i in range(12 if tier == "quick" else 300):
         c = ("ed25519", "ed25519blake2b")[i % 2]
         yield Case("derive", [c, hx(rand_seed(rng)), nats([rand_index(rng, True), rand_index(rng)]), 1], "neg-ed25519-public")
@@ -255,6 +270,96 @@ def relations(rng, tier, rpt):
                 seed.hex(), got, "Bip32KeyError (or the full wallet's %s)" % want)
         except Bip32KeyError:
             pass
+    # history across classes, objects and wrappers: what a public-only parent derives depends on ITS curve, key, chain code, metadata and
+    # version bytes only — not on which other object was asked for the same index before.  A parent key whose compressed bytes are valid on
+    # both ECDSA curves is loaded (from raw key + key data, and from the extended public key string) by the other curve class, and by the
+    # right class with one component changed at a time (chain code, depth/index/fingerprint, version bytes); the objects are asked in a
+    # random order, twice.  Right-class objects are compared with the public half of the private child of the same key data (the clause
+    # itself); the other-curve object, which has no private side, with the reference child computed from the BIP-32 formula by the curve
+    # library called directly
+    from harness.props.bip32_common import both_curves_parent, ckd_pub_ref
+    from bip_utils import Bip32Depth, Bip32KeyIndex, Bip32ChainCode, Bip32FingerPrint
+    ecd = ("secp256k1", "nist256p1")
+    nh = 0
+    for i in range(4 if tier == "quick" else 120):
+        right, other = ecd[i % 2], ecd[1 - i % 2]
+        r = both_curves_parent(rng, right)
+        if r is None:
+            continue
+        kb, pubb = r
+        rb = lambda k: bytes(rng.randrange(256) for _ in range(k))     # noqa: E731
+        cc, fp, dep, pix = rb(32), rb(4), rng.choice([1, 2, 3]), rand_index(rng)
+        kvs = _kvs()
+        kv0, kv1 = Bip32KeyNetVersions(bytes.fromhex("0488b21e"), bytes.fromhex("0488ade4")), kvs[rng.randrange(len(kvs))]
+        mk = lambda d, ix, c_, f_: Bip32KeyData(Bip32Depth(d), Bip32KeyIndex(ix), Bip32ChainCode(c_), Bip32FingerPrint(f_))    # noqa: E731
+        variants = [("the parent", right, (dep, pix, cc, fp), kv0),
+                    ("the same key bytes and key data on the other curve class", other, (dep, pix, cc, fp), kv0),
+                    ("the same key with another chain code", right, (dep, pix, rb(32), fp), kv0),
+                    ("the same key and chain code with other depth/index/fingerprint", right, (dep + 1, pix ^ 1, cc, rb(4)), kv0),
+                    ("the same key and key data under other version bytes", right, (dep, pix, cc, fp), kv1)]
+        idxs = [rand_index(rng, False), rng.randrange(0, 4)]
+        order = list(range(len(variants))) * 2
+        rng.shuffle(order)
+        for step, j in enumerate(order):
+            label, c, meta, kv = variants[j]
+            w = CLS[c].FromPublicKey(pubb, mk(*meta), kv)
+            if step % 2:
+                w = CLS[c].FromExtendedKey(w.PublicKey().ToExtended(), kv)
+            for idx in idxs:
+                nh += 1
+                if c == right:      # key, chain code, depth, index, parent fingerprint, extended public key
+                    want = pub_view(CLS[c].FromPrivateKey(kb, mk(*meta), kv).ChildKey(idx))
+                else:               # key, chain code, depth, index
+                    ref = ckd_pub_ref(c, pubb, meta[2], idx)
+                    if ref is None:
+                        continue
+                    want = (ref[0], ref[1], meta[0] + 1, idx)
+                try:
+                    got = pub_view(w.ChildKey(idx))[:len(want)]
+                except Bip32KeyError:
+                    got = ("refused: Bip32KeyError",)
+                if got != want:
+                    rep("public derivation from %s (%s, loaded from %s) is not %s once the same key bytes have been used by other public-only objects"
+                        % (label, c, "its extended public key" if step % 2 else "raw key + key data",
+                           "the public side of the private child" if c == right else "the child K_par + IL*G of that curve (reference: hmac + the curve library)"),
+                        "key=%s pub=%s cc=%s depth=%d index=%d step=%d of order %s" % (kb.hex(), pubb.hex(), meta[2].hex(), meta[0], idx, step, order),
+                        str([x.hex() if isinstance(x, bytes) else x for x in got]), str([x.hex() if isinstance(x, bytes) else x for x in want]))
+                    break
+    # the same at wrapper level: an account xpub of a P-256 coin (NEO) tried as an account of a secp256k1 coin with the same version bytes
+    # (Bitcoin) and then used for the coin it belongs to, and the other way round: addresses and extended keys of the watch-only account
+    # are those of the private account
+    pairs = [(Bip44Coins.NEO, Bip44Coins.BITCOIN), (Bip44Coins.BITCOIN, Bip44Coins.NEO)]
+    for i in range(2 if tier == "quick" else 30):
+        coin_r, coin_o = pairs[i % 2]
+        for _ in range(64):
+            seed = rand_seed(rng)
+            acc = Bip44.FromSeed(seed, coin_r).Purpose().Coin().Account(rng.randrange(3))
+            xpub = acc.PublicKey().ToExtended()
+            try:
+                probe = Bip44.FromExtendedKey(xpub, coin_o)
+                break
+            except Bip32KeyError:          # the key bytes are not a point of the other coin's curve: next seed
+                continue
+        else:
+            continue
+        ch = rng.choice([Bip44Changes.CHAIN_EXT, Bip44Changes.CHAIN_INT])
+        ixs = [0, rng.getrandbits(31)]
+        for ix in ixs:
+            probe.Change(ch).AddressIndex(ix)
+        w = Bip44.FromExtendedKey(xpub, coin_r)
+        for ix in ixs:
+            nh += 1
+            a = acc.Change(ch).AddressIndex(ix).PublicKey()
+            try:
+                b = w.Change(ch).AddressIndex(ix).PublicKey()
+                got = (b.ToAddress(), b.ToExtended())
+            except Bip32KeyError:
+                got = ("refused: Bip32KeyError",)
+            if got != (a.ToAddress(), a.ToExtended()):
+                rep("Bip44[%s] watch-only account differs from the private account after the same extended public key was tried as a %s account" % (coin_r.name, coin_o.name),
+                    "seed=%s xpub=%s change=%d index=%d" % (seed.hex(), xpub, int(ch), ix), str(got), str((a.ToAddress(), a.ToExtended())))
+                break
+    rpt.extra["cross_object_history_checks"] = nh
     # conversion after use: an object converted to public-only behaves as public-only whatever was derived from it before
     for i in range(20 if tier == "quick" else 600):
         name = list(schemes)[i % len(schemes)]
@@ -314,4 +419,5 @@ def relations(rng, tier, rpt):
     rpt.extra["raw_kholaw_parent_checks"] = nk
     rpt.extra["impl_relation_checks"] = n
     rpt.extra["known_finding_instances"] = known
-    return bad[:8]
+    # instances of the open finding are reported once and never crowd out other violations
+    return [b for b in bad if not b.get("finding_id")][:8] + [b for b in bad if b.get("finding_id")][:1]
